@@ -281,10 +281,20 @@ impl<'p> Harness<'p> {
     /// Could `t` be made necessary by a new observer at the next stabilise without
     /// touching a bind-created node whose defining bind is not necessary?
     fn can_make_necessary(&self, t: Tag) -> bool {
+        // `will`: nodes that end up needed; `seen`: nodes the engine touches on the way. A node with
+        // an invalid input is linked to all its inputs (they are needed for a moment, so their own
+        // defining binds must be needed) and then invalidated, which lets go of them again: what
+        // hangs below it does not count as needed for anything linked by a *later* observer, and,
+        // to stay on the safe side, not for anything linked later by this one either.
         let mut will: HashSet<Tag> = HashSet::new();
-        let mut stack = vec![t];
-        while let Some(x) = stack.pop() {
+        let mut seen: HashSet<Tag> = HashSet::new();
+        let mut memo = HashMap::new();
+        let mut stack = vec![(t, true)];
+        while let Some((x, stable)) = stack.pop() {
             if !self.model.has(x) || self.necessary.contains(&x) || will.contains(&x) {
+                continue;
+            }
+            if !stable && seen.contains(&x) {
                 continue;
             }
             let n = self.model.node(x);
@@ -298,14 +308,18 @@ impl<'p> Harness<'p> {
                     return false;
                 }
             }
-            will.insert(x);
+            let stable = stable && self.model.valid_when_linked(x, &mut memo);
+            seen.insert(x);
+            if stable {
+                will.insert(x);
+            }
             // engine order: children in index order, depth first
             let mut kids: Vec<Tag> = n.inputs.clone();
             if let Some(b) = &n.bind {
                 kids.extend(b.rhs.iter().copied());
             }
             for k in kids.into_iter().rev() {
-                stack.push(k);
+                stack.push((k, stable));
             }
         }
         true
@@ -1563,10 +1577,13 @@ impl<'p> Harness<'p> {
             let live: Vec<usize> = (0..self.obs.len())
                 .filter(|i| matches!(self.obs[*i].state, OState::Created | OState::InUse))
                 .collect();
-            let roots: Vec<Tag> = live.iter().map(|i| self.obs[*i].node).collect();
-            let all: HashSet<Tag> = self.model.cone(&roots).into_iter().collect();
+            // observers that are already linked keep their cones needed; new ones are linked in the
+            // order of their creation, each seeing only what is needed by then
+            let linked: Vec<Tag> = live.iter().filter(|i| self.obs[**i].state == OState::InUse).map(|i| self.obs[*i].node).collect();
+            let mut all: HashSet<Tag> = self.model.cone(&linked).into_iter().collect();
             let mut victim = None;
             for &oi in &live {
+                all.extend(self.model.cone(&[self.obs[oi].node]));
                 // (everything the engine will touch while linking, also below a node that is about
                 // to be invalidated because another of its inputs is invalid)
                 let cone = self.model.link_cone(&[self.obs[oi].node]);
